@@ -102,6 +102,47 @@ def attr_clauses():
     return out
 
 
+
+def header_clauses(h):
+    """[(tags, spec expression over b0 (view at the unit_length field), given (address size passed in), h (the header))]:
+    what an Ok result of LineProgramHeader::parse is, field by field and table by table (DWARF 5 6.2.4 / DWARF 2-4 6.2.4)"""
+    TV = 'lp_tables(b0)'
+    ND = f'{h}.include_directories@.len() as int'
+    FV4 = f'view_at({TV}, strs_len({TV}, {ND}) as int + 1)'
+    DV5 = f'entries_view({TV})'
+    FV5 = f'view_at({DV5}, entries_len({DV5}, {h}.encoding, {h}.directory_entry_format@, {ND}) as int)'
+    V4, V5 = 'lp_version(b0) <= 4', 'lp_version(b0) >= 5'
+    return [
+        # the fixed part: every field is the encoded field, the rejected values are absent (lp_fixed_ok, specs/line_hdr.rs)
+        ('[C04:header-fields][C04:header-opcode-lengths][C04:header-program][C10:view]',
+         f'lp_fixed_ok(b0, given, {h}.encoding, {h}.unit_length.as_nat(), {h}.header_length.as_nat(), {h}.line_encoding, {h}.opcode_base, {h}.sol(), {h}.program_view())'),
+        ('[C04:header-valid][C01:header-valid]', f'valid_line_hdr({h}.lh())'),
+        ('[C04:header-machine]', f'{h}.lh() == lp_lh(b0, given)'),
+        ('[C04:header-dirs-v4][C10:view]', f'{V4} ==> dirs_v4_ok({TV}, {h}.include_directories@) && table_end_v4({TV}, strs_len({TV}, {ND}) as int) && {h}.directory_entry_format@.len() == 0'),
+        ('[C04:header-files-v4][C10:view]', f'{V4} ==> files_v4_ok({FV4}, {h}.file_names@) && table_end_v4({FV4}, files_v4_len({FV4}, {h}.file_names@.len() as int) as int) && {h}.file_name_entry_format@.len() == 0'),
+        ('[C04:header-dir-format-v5]', f'{V5} ==> fmts_ok({TV}, {h}.directory_entry_format@)'),
+        ('[C04:header-dirs-v5][C10:view]', f'{V5} ==> {h}.include_directories@.len() == entries_count({TV}) && dirs_v5_ok({DV5}, {h}.encoding, {h}.directory_entry_format@, {h}.include_directories@)'),
+        ('[C04:header-file-format-v5]', f'{V5} ==> fmts_ok({FV5}, {h}.file_name_entry_format@)'),
+        ('[C04:header-files-v5][C10:view]', f'{V5} ==> {h}.file_names@.len() == entries_count({FV5}) && files_v5_ok(entries_view({FV5}), {h}.encoding, {h}.file_name_entry_format@, {h}.file_names@)'),
+    ]
+
+
+def parsed_from_text():
+    body = '\n'.join(f'        &&& ({b})   // {tags}' for tags, b in header_clauses('self'))
+    return f"""    /// this header is the decoding of the line number program header that starts at the read position of b0
+    /// (`given`: the address size passed in for versions 2-4): the conjunction of the tagged clauses of `parse`
+    pub closed spec fn parsed_from(&self, b0: RView, given: u8) -> bool {{
+{body}
+    }}
+    /// what the line number machine requires follows from what the parser ensures
+    pub proof fn lemma_parsed_valid(&self, b0: RView, given: u8)
+        requires self.parsed_from(b0, given)
+        ensures valid_line_hdr(self.lh()), self.lh() == lp_lh(b0, given), self.program_view() == lp_program(b0), self.sol() == lp_sol(b0)
+    {{
+        lemma_fixed_valid(b0, given, self.encoding, self.unit_length.as_nat(), self.header_length.as_nat(), self.line_encoding, self.opcode_base, self.sol(), self.program_view());
+    }}
+"""
+
 GHOST_IMPLS = '''
 impl<R, Offset> FileEntry<R, Offset>
 where
@@ -192,6 +233,112 @@ use crate::aspec::*;''')
                    if j < 0 {{ path_name is None }} else {{ path_name matches Some(x) && line_attr_ok(field_view({B0}, encoding, formats@, j), encoding, formats@[j].form.0 as nat, x) }} }}),'''},
         before=[('Ok(path_name.unwrap())', f'proof {{ lemma_count_last(formats@, lnct_path(), {N}); }}')])
     sk.add(M, pd)
+
+    pf = ln.item(r'^fn parse_file_v5<')
+    # R-U8ARRAY (see READ_MD5): the generic `read_u8_array::<[u8; 16]>` at its only instantiation
+    pf.custom('R-U8ARRAY', 'md5 = value.read_u8_array()?;', 'md5 = verif_read_u8_array16(&mut value)?;')
+    pf.clean(offset=False)
+    pf.insert_after('for format in ', 'it: ')
+    NUM = lambda ct, j: f'num_upto({B0}, encoding, formats@, {ct}, {j})'
+    IDX = 'it.index as int'
+    pf.splice('parse_file_v5', ret='res', owners=OWN, canary=True, requires=[ONE], ensures=[
+        f'[C04:file-v5-path] res matches Ok(e) ==> fe_path_ok({B0}, encoding, formats@, e.path_v())',
+        f'[C04:file-v5-directory-index] res matches Ok(e) ==> e.dir_v() as nat == {NUM("lnct_directory_index()", N)}',
+        f'[C04:file-v5-timestamp] res matches Ok(e) ==> e.time_v() as nat == {NUM("lnct_timestamp()", N)}',
+        f'[C04:file-v5-size] res matches Ok(e) ==> e.size_v() as nat == {NUM("lnct_size()", N)}',
+        f'[C04:file-v5-md5] res matches Ok(e) ==> fe_md5_ok({B0}, encoding, formats@, e.md5_v())',
+        f'[C04:file-v5-source] res matches Ok(e) ==> fe_source_ok({B0}, encoding, formats@, e.source_v())',
+        f'res matches Ok(e) ==> file_v5_ok({B0}, encoding, formats@, e)',
+        f'[C04:file-v5-len] res is Ok ==> adv({B0}, {FIN}, {FL(N)})',
+        f'[C01:frame] within({B0}, {FIN})'],
+        loops={0: f'''invariant
+                adv({B0}, input.rv(), {FL(IDX)}),
+                ({{ let j = last_ct(formats@, lnct_path(), {IDX});
+                   if j < 0 {{ path_name is None }} else {{ path_name matches Some(x) && line_attr_ok(field_view({B0}, encoding, formats@, j), encoding, formats@[j].form.0 as nat, x) }} }}),
+                ({{ let j = last_ct(formats@, lnct_llvm_source(), {IDX});
+                   if j < 0 {{ source is None }} else {{ source matches Some(x) && line_attr_ok(field_view({B0}, encoding, formats@, j), encoding, formats@[j].form.0 as nat, x) }} }}),
+                directory_index as nat == {NUM("lnct_directory_index()", IDX)},
+                timestamp as nat == {NUM("lnct_timestamp()", IDX)},
+                size as nat == {NUM("lnct_size()", IDX)},
+                ({{ let m = md5_upto({B0}, encoding, formats@, {IDX});
+                   if m < 0 {{ forall|k: int| 0 <= k < 16 ==> md5[k] == 0 }} else {{ forall|k: int| 0 <= k < 16 ==> md5[k] == {B0}.at(m + k) }} }}),'''},
+        before=[('Ok(FileEntry {', f'proof {{ lemma_count_last(formats@, lnct_path(), {N}); }}')])
+    sk.add(M, pf)
+
+    # ---- LineProgramHeader::parse
+    hp = ln.item(r'^impl<R, Offset> LineProgramHeader<R, Offset>', label='LineProgramHeader(parse)')
+    hp.keep_only(['parse'])
+    hp.custom('R-CLONE', 'let mut program_buf = rest.clone();', 'let mut program_buf = reader_clone(rest);')
+    # same as R-CLOSURE: the wildcard loop variable gets a name so that the loop invariants can count entries
+    hp.custom('R-CLOSURE', 'for _ in 0..count {', 'for _verif_i in 0..count {', count=2)
+    hp.clean(offset=False)
+    hp.own(OWN)
+    HB0 = 'old(input).rv()'
+    FIX = ('lp_fixed_ok(b0, given, encoding, unit_length.as_nat(), header_length.as_nat(), line_encoding, opcode_base, '
+           'standard_opcode_lengths.rv(), program_buf.rv()), b0 == old(input).rv(), adv(b0, input.rv(), il_size(b0) + il_len(b0)), tv == lp_tables(b0)')
+    hp.insert_members(parsed_from_text())
+    # the table predicates are atoms in the straight-line part of `parse` (revealed inside the four table loops)
+    hp.insert_after(') -> Result<LineProgramHeader<R, Offset>> {', '\n        hide(dirs_v4_ok); hide(files_v4_ok); hide(dirs_v5_ok); hide(files_v5_ok);')
+    hp.splice('parse', ret='res', canary=True, requires=[
+        # versions 2-4 have no address_size field: the caller passes the address size of the unit (validated by the unit
+        # header parser).  DebugLine::program documents "must match the compilation unit"; see observation O-line-hdr-1
+        '[C04:address-size-pre] valid_address_size(address_size)'],
+        ensures=[f'{tags} res matches Ok(h) ==> ({{ let b0 = {HB0}; let given = address_size; {body} }})' for tags, body in header_clauses('h')] + [
+        f'[C04:header-offset] res matches Ok(h) ==> h.offset == offset',
+        f'res matches Ok(h) ==> h.parsed_from({HB0}, address_size)',
+        f'[C04:header-consumed] res is Ok ==> adv({HB0}, {FIN}, il_size({HB0}) + il_len({HB0}))',
+        f'[C01:frame] within({HB0}, {FIN})'],
+        before=[('let (unit_length, format) = input.read_initial_length()?;', 'let ghost b0 = input.rv(); let ghost given = address_size; let ghost tv = lp_tables(b0);'),
+                ('let directory = rest.read_null_terminated_slice()?;', 'let ghost vb = rest.rv(); proof { reveal(dirs_v4_ok); }'),
+                ('include_directories.push(parse_directory_v5(', 'proof { reveal(dirs_v5_ok); }'),
+                ('file_names.push(parse_file_v5(rest, encoding, &file_name_entry_format)?);', 'proof { reveal(files_v5_ok); }'),
+                ('let comp_file;', 'let ghost fv = rest.rv();'),
+                ('let path_name = rest.read_null_terminated_slice()?;', 'let ghost vb = rest.rv(); proof { reveal(files_v4_ok); }'),
+                ('let header = LineProgramHeader {', 'proof { lemma_fixed_valid(b0, given, encoding, unit_length.as_nat(), header_length.as_nat(), line_encoding, opcode_base, standard_opcode_lengths.rv(), program_buf.rv()); }')],
+        after=[('directory_entry_format = Vec::new();', 'proof { lemma_dirs_v4_empty(tv, include_directories@); }'),
+               ('directory_entry_format = FileEntryFormat::parse(rest)?;', 'proof { lemma_dirs_v5_empty(entries_view(tv), encoding, directory_entry_format@, include_directories@); }'),
+               ('file_name_entry_format = Vec::new();', 'proof { lemma_files_v4_empty(fv, file_names@); }'),
+               ('file_name_entry_format = FileEntryFormat::parse(rest)?;', 'proof { lemma_files_v5_empty(entries_view(fv), encoding, file_name_entry_format@, file_names@); }'),
+               ('let standard_opcode_lengths = rest.split(standard_opcode_count)?;',
+                # mid-point obligations (a failed assert is assumed afterwards, so they carry the tags of the clauses they feed)
+                'proof {\n assert(standard_opcode_lengths.rv() == lp_sol(b0) && rest.rv() == lp_tables(b0)); // [C04:header-opcode-lengths]\n'
+                ' assert(lp_fixed_def(b0, given, encoding, unit_length.as_nat(), header_length.as_nat(), line_encoding, opcode_base, standard_opcode_lengths.rv(), program_buf.rv())); // [C04:header-fields][C04:header-valid]\n'
+                ' lemma_fixed_intro(b0, given, encoding, unit_length.as_nat(), header_length.as_nat(), line_encoding, opcode_base, standard_opcode_lengths.rv(), program_buf.rv());\n }'),
+               # stepping stones: the three nested windows (unit, header proper, program)
+               ('let rest = &mut input.split(unit_length)?;', 'proof {\n assert(rest.rv() == lp_unit(b0) && il_size(b0) + il_len(b0) <= b0.len && format == il_format(b0) && unit_length.as_nat() == il_len(b0)); // [C04:header-fields]\n }'),
+               ('rest.truncate(header_length)?;', 'proof {\n assert(header_length.as_nat() == lp_header_length(b0) && rest.rv() == lp_hdr(b0) && program_buf.rv() == lp_program(b0)); // [C04:header-fields][C04:header-program]\n }'),
+               ('let directory = rest.read_null_terminated_slice()?;', 'proof { lemma_cstr_len0(vb, directory.rv().len); }'),
+               ('let path_name = rest.read_null_terminated_slice()?;', 'proof { lemma_cstr_len0(vb, path_name.rv().len); }')],
+        loops={0: f'''invariant_except_break
+                adv(tv, rest.rv(), strs_len(tv, include_directories@.len() as int)),
+            invariant
+                {FIX}, encoding.version <= 4,
+                dirs_v4_ok(tv, include_directories@), directory_entry_format@.len() == 0,
+            ensures
+                adv(tv, rest.rv(), strs_len(tv, include_directories@.len() as int) + 1),
+                table_end_v4(tv, strs_len(tv, include_directories@.len() as int) as int),
+            decreases rest.rv().len''',
+               1: f'''invariant
+                {FIX}, encoding.version >= 5,
+                fmts_ok(tv, directory_entry_format@), count as nat == entries_count(tv),
+                adv(entries_view(tv), rest.rv(), entries_len(entries_view(tv), encoding, directory_entry_format@, _verif_i as int)),
+                include_directories@.len() == _verif_i,
+                dirs_v5_ok(entries_view(tv), encoding, directory_entry_format@, include_directories@),''',
+               2: f'''invariant_except_break
+                adv(fv, rest.rv(), files_v4_len(fv, file_names@.len() as int)),
+            invariant
+                {FIX}, encoding.version <= 4,
+                files_v4_ok(fv, file_names@), file_name_entry_format@.len() == 0,
+            ensures
+                table_end_v4(fv, files_v4_len(fv, file_names@.len() as int) as int),
+            decreases rest.rv().len''',
+               3: f'''invariant
+                {FIX}, encoding.version >= 5,
+                fmts_ok(fv, file_name_entry_format@), count as nat == entries_count(fv),
+                adv(entries_view(fv), rest.rv(), entries_len(entries_view(fv), encoding, file_name_entry_format@, _verif_i as int)),
+                file_names@.len() == _verif_i,
+                files_v5_ok(entries_view(fv), encoding, file_name_entry_format@, file_names@),'''})
+    sk.add(M, hp)
     return sk
 
 
